@@ -200,6 +200,7 @@ def canon_round(o):
 def run(ctx):
     rng = ctx.rng
     ctx.lean = common.lean_check('C12')
+    common.run_regressions(ctx, 'C12', lambda r: recheck(r))
     quick = ctx.quick()
     ntrees = 1000 if quick else 10000
     maxdepth = 4 if quick else 6
@@ -286,3 +287,6 @@ def replay(obj):
     print('implementation returned:', common.canon_json(out))
     print('oracle:', why or 'ok')
     return 1 if why else 0
+
+
+recheck = common.recheck_via_replay(replay)
